@@ -271,7 +271,8 @@ def work_repeat(job):
                 if ext & 1 and name in ('definition', 'footnote', 'inline-footnote', 'citation', 'abbreviation', 'table', 'fenced', 'math'):
                     continue        # not Markdown constructs
                 case = dict(requests=[D.req_to_json('asan', 'CONVERT', fmt, ext, 0, 2 | (1 << 4), [src])])
-                rep = s.call('asan', 'CONVERT', fmt, ext, 0, 2 | (1 << 4), [src], what='[%d x %s]' % (n, name), hang_is_violation=True, crash_is_violation=True)
+                rep = s.call('asan', 'CONVERT', fmt, ext, 0, 2 | (1 << 4), [src], what='[%d x %s]' % (n, name), hang_is_violation=True, crash_is_violation=True,
+                             key_suffix=(':more-than-32767-%s-blocks' % name) if n > 32767 else '')
                 r.evaluations += 1
                 r.stats['conversions_repeated_blocks'] += 1
                 if rep is None:
@@ -434,7 +435,11 @@ def main():
     nd = chk.scale(1600, 60000)
     chk.run_jobs(work_docs, [(chk.seed, lo, min(nd, lo + 25)) for lo in range(0, nd, 25)])
     counts = gen.REPEAT_COUNTS if chk.thorough else [100, 999, 1000, 1100, 2000]
-    chk.run_jobs(work_repeat, [(chk.seed, ui, n) for ui in range(len(gen.REPEAT_UNITS)) for n in counts])
+    rjobs = [(chk.seed, ui, n) for ui in range(len(gen.REPEAT_UNITS)) for n in counts]
+    # counters behind notes, citations, abbreviations and labels: beyond 2^15 and (thorough) 2^16 of them in one document
+    big = [33000] + ([66000] if chk.thorough else [])
+    rjobs += [(chk.seed, ui, n) for ui, u in enumerate(gen.REPEAT_UNITS) if u[0] in (('footnote',) if not chk.thorough else ('footnote', 'inline-footnote', 'citation', 'abbreviation', 'ref-link', 'heading', 'image')) for n in big]
+    chk.run_jobs(work_repeat, rjobs)
     chk.coverage_extra['exhaustive'] = True
     chk.coverage_extra['exhaustive_scope'] = 'all %d line-kind sequences of length <= %d over %d representatives; the random and byte-string parts are sampled' % (total, L, K)
     chk.coverage_extra['line_kinds'] = [k[0] for k in KINDS]
